@@ -106,8 +106,12 @@ def make_constant(context, value, like_expr):
     return Expr(context, "constant", (value, normalize_like(like_expr)))
 
 
-def make_symbol(context, name, typ, _tmp_counter=[0]):
+def make_symbol(context, name, typ):
     if name is None:
+        # the counter of temporary names belongs to the context: a
+        # process-wide counter makes generated text depend on what
+        # was generated before
+        _tmp_counter = context.__dict__.setdefault("_tmp_counter", [0])
         name = f"_tmp{_tmp_counter[0]}"
         _tmp_counter[0] += 1
     # All symbols must have a type.
